@@ -371,6 +371,7 @@ func checkC06(w *World, r *Recorder) propInfo {
 
 	// ---------- A3 ----------
 	c06Loops(w, r, reach, inScope)
+	c06Locks(w, r, reach, inScope)
 
 	// ---------- A4 ----------
 	ruleOptions(w, r, "C06-A4", "DecOptions")
@@ -1142,4 +1143,102 @@ func condDependsOnTaint(v ssa.Value, ts *taintSum, depth int) bool {
 		}
 	}
 	return false
+}
+
+// ---- A6: blocking ----
+
+// c06Locks: a decode entry point returns only if it is not left waiting for a
+// lock: every Lock / RLock of a sync.Mutex / RWMutex in decode-reachable code
+// is released on every way out of the function — by a deferred Unlock on the
+// same mutex registered right after it, or by an Unlock that every path from
+// the Lock to a return passes. (A mutex that a return path leaves locked makes
+// the next call of any function that takes it wait forever.)
+func c06Locks(w *World, r *Recorder, reach map[*ssa.Function]bool, inScope func(*ssa.Function) bool) {
+	isLockCall := func(c *ssa.CallCommon, names ...string) (ssa.Value, bool) {
+		f := c.StaticCallee()
+		if f == nil || f.Pkg == nil || f.Pkg.Pkg.Path() != "sync" || len(c.Args) == 0 {
+			return nil, false
+		}
+		for _, n := range names {
+			if f.Name() == n {
+				return c.Args[0], true
+			}
+		}
+		return nil, false
+	}
+	n := 0
+	for _, fn := range sortedFuncs(reach) {
+		if !inScope(fn) {
+			continue
+		}
+		for _, b := range fn.Blocks {
+			for idx, in := range b.Instrs {
+				call, ok := in.(*ssa.Call)
+				if !ok {
+					continue
+				}
+				mu, isLock := isLockCall(&call.Call, "Lock", "RLock")
+				if !isLock {
+					continue
+				}
+				n++
+				unlockName := "Unlock"
+				if call.Call.StaticCallee().Name() == "RLock" {
+					unlockName = "RUnlock"
+				}
+				key := fmt.Sprintf("%s#lock/%d", fnKey(fn), n)
+				releases := func(i ssa.Instruction) bool {
+					switch x := i.(type) {
+					case *ssa.Call:
+						m2, ok := isLockCall(&x.Call, unlockName)
+						return ok && sameAddr(m2, mu)
+					case *ssa.Defer:
+						m2, ok := isLockCall(&x.Call, unlockName)
+						return ok && sameAddr(m2, mu)
+					}
+					return false
+				}
+				// forward search from the Lock: a path that reaches a Return (or
+				// panics) without a release
+				type pos struct {
+					b *ssa.BasicBlock
+					i int
+				}
+				seen := map[*ssa.BasicBlock]bool{}
+				var leak ssa.Instruction
+				var walk func(p pos)
+				walk = func(p pos) {
+					if leak != nil {
+						return
+					}
+					for j := p.i; j < len(p.b.Instrs); j++ {
+						cur := p.b.Instrs[j]
+						if releases(cur) {
+							return
+						}
+						if _, isRet := cur.(*ssa.Return); isRet {
+							leak = cur
+							return
+						}
+					}
+					for _, s := range p.b.Succs {
+						if !seen[s] {
+							seen[s] = true
+							walk(pos{s, 0})
+						}
+					}
+				}
+				walk(pos{b, idx + 1})
+				if leak != nil {
+					r.Refute("C06-A6", key, w.InstrPos(leak), "a return is reachable with the mutex locked at "+w.InstrPos(call)+" still held: the next call that takes it never returns")
+				} else {
+					r.Prove("C06-A6", key, w.InstrPos(call), "released on every path to a return", true)
+				}
+			}
+		}
+	}
+	r.Count("lock_sites", n)
+	if n == 0 {
+		r.Prove("C06-A6", "no-locks", "-", "no sync.Mutex / RWMutex is taken in decode-reachable code (nothing to wait for)", false)
+	}
 }
